@@ -310,6 +310,9 @@ class G(object):
                     self.ep = self.inside(tx, ty) if self.enabled else False
             self.ops.append(op)
             self.retracted = True
+        elif (not self.fw) and self.k.get("double_retract") and r.random() < self.k["double_retract"]:
+            self.ops.append({"op": "retract", "grp": self.cyc, "extra": True, "len": r.choice([0.2, 0.5, self.rlen]),
+                             "f": r.choice([1800, 2400])})
         else:
             op = {"op": "recover", "grp": self.cyc}
             if self.fw:
